@@ -1,6 +1,5 @@
 import CsVerif.Model.Basic
 import CsVerif.Gen.Grammar
-import CsVerif.Gen.Beacon
 import CsVerif.Gen.ProfileGen
 import CsVerif.Model.C10
 import CsVerif.Model.C12
